@@ -285,8 +285,13 @@ pub fn user_hash(user: &str, realm: &str) -> Vec<u8> {
 const B64: &[u8; 64] = b"ABCDEFGHIJKLMNOPQRSTUVWXYZabcdefghijklmnopqrstuvwxyz0123456789+/";
 
 pub fn nonce_cookie(pwd_algs: bool, anonymity: bool, rest: &str) -> String {
+    nonce_cookie_reserved(pwd_algs, anonymity, 0, rest)
+}
+
+/// Like `nonce_cookie`, with the 22 not yet assigned feature bits set to `reserved` (a client must ignore them).
+pub fn nonce_cookie_reserved(pwd_algs: bool, anonymity: bool, reserved: u32, rest: &str) -> String {
     let b0: u8 = (if pwd_algs { 0x80 } else { 0 }) | (if anonymity { 0x40 } else { 0 });
-    let v: u32 = (b0 as u32) << 16;
+    let v: u32 = ((b0 as u32) << 16) | (reserved & 0x3F_FFFF);
     let mut s = String::from(NONCE_COOKIE_PREFIX);
     for shift in [18, 12, 6, 0] {
         s.push(B64[((v >> shift) & 63) as usize] as char);
@@ -371,6 +376,8 @@ pub fn xor_mapped_v4(port: u16, ip: [u8; 4]) -> Vec<u8> {
 #[derive(Clone, Debug)]
 pub struct Builder {
     pub buf: Vec<u8>,
+    /// value of the padding bytes (RFC 8489: may be anything, receivers ignore it; it is covered by MAC and CRC)
+    pub pad: u8,
 }
 
 impl Builder {
@@ -380,7 +387,7 @@ impl Builder {
         buf.extend_from_slice(&[0, 0]);
         buf.extend_from_slice(&MAGIC);
         buf.extend_from_slice(txid);
-        Builder { buf }
+        Builder { buf, pad: 0 }
     }
 
     fn set_len(&mut self) {
@@ -398,7 +405,7 @@ impl Builder {
         self.buf.extend_from_slice(&(value.len() as u16).to_be_bytes());
         self.buf.extend_from_slice(value);
         while self.buf.len() % 4 != 0 {
-            self.buf.push(0);
+            self.buf.push(self.pad);
         }
         self.set_len();
     }
